@@ -29,13 +29,13 @@ def violations_on(prop, repo_dir, config='default', target_dir=None):
     f = factsmod.load(fp)
     ctx = run.Ctx(prop, f, 'thorough', 0, config)
     mod.run(ctx)
-    # remove the scratch fact file again (it is keyed by content hash and of no further use)
-    for p in (fp, fp + '.pickle'):
-        try:
-            os.remove(p)
-        except OSError:
-            pass
+    # the scratch fact file (keyed by content hash, of no further use) is removed by the caller once all workers are done:
+    # two self-tests may produce identical trees and then share it
+    _SCRATCH_FACTS.add(fp)
     return [o['key'] for o in ctx.obs if o['status'] == 'violation']
+
+
+_SCRATCH_FACTS = set()
 
 
 def _one(prop, t, repo, target_dir):
@@ -107,4 +107,11 @@ def run_for(prop, seed=0, repo='/repo', jobs=None):
     finally:
         for td in made:
             shutil.rmtree(td, ignore_errors=True)
+        for fp in list(_SCRATCH_FACTS):
+            for p in (fp, fp + '.pickle'):
+                try:
+                    os.remove(p)
+                except OSError:
+                    pass
+        _SCRATCH_FACTS.clear()
     return out
